@@ -1774,7 +1774,17 @@ func undoAdd(totalRows uint8, positions, origToDestroy []uint64, numAdds uint16,
 func getPrevPos(totalRows uint8, cached, deleted, toDestroy []uint64, numAdds uint16, numLeaves uint64) ([]uint64, []int) {
 	var created []int
 	cached, created = undoAdd(totalRows, cached, toDestroy, numAdds, numLeaves)
+
+	// The positions created in this block did not exist yet when the block's
+	// deletions happened, so undoing the deletions must not move them.
+	createdPos := make([]uint64, len(created))
+	for i, idx := range created {
+		createdPos[i] = cached[idx]
+	}
 	cached = undoDel(totalRows, cached, deleted, numLeaves-uint64(numAdds))
+	for i, idx := range created {
+		cached[idx] = createdPos[i]
+	}
 	return cached, created
 }
 
